@@ -681,6 +681,11 @@ func (mvcc *MVCCLevelDB) pessimisticLockMutation(batch *leveldb.Batch, mutation 
 			}
 			return dec.lock.lockErr(mutation.Key)
 		}
+		if dec.lock.op != kvrpcpb.Op_PessimisticLock {
+			// The key is already prewritten by this transaction: a pessimistic lock request
+			// must not overwrite the prewrite lock (TiKV answers LockTypeNotMatch).
+			return ErrAbort("lock type not match")
+		}
 	}
 
 	// For pessimisticLockMutation, check the corresponding rollback record, there may be rollbackLock
